@@ -14,3 +14,4 @@ def run(ck):
     image.r15_6_free_while_linked(ck, P)
     image.r20_6_region_reinit(ck, P)
     image.r_no_dangling_after_free(ck, P, 'C15-R8')
+    alloc.r9_failure_is_atomic(ck, P)
